@@ -106,6 +106,14 @@ pub fn panic_site(msg: &str) -> String {
     }
 }
 
+static IN_FLIGHT: Mutex<BTreeMap<u64, (u64, Instant)>> = Mutex::new(BTreeMap::new());
+static IN_FLIGHT_KEY: AtomicU64 = AtomicU64::new(0);
+
+/// Cases started by par_cases that have not returned: (case number, seconds running).
+pub fn in_flight() -> Vec<(u64, u64)> {
+    IN_FLIGHT.lock().map(|m| m.values().map(|(c, t)| (*c, t.elapsed().as_secs())).collect()).unwrap_or_default()
+}
+
 impl Run {
     pub fn new(prop: &'static str, level: &'static str, tier: Tier, replay: Option<Value>) -> Run {
         let seed = std::env::var("VERIF_SEED")
@@ -230,7 +238,11 @@ impl Run {
                             self.count("cases_skipped_by_time_budget", 1);
                             continue;
                         }
-                        if let Err(msg) = guard(|| f(i)) {
+                        let key = IN_FLIGHT_KEY.fetch_add(1, Ordering::SeqCst);
+                        IN_FLIGHT.lock().unwrap().insert(key, (i, Instant::now()));
+                        let r = guard(|| f(i));
+                        IN_FLIGHT.lock().unwrap().remove(&key);
+                        if let Err(msg) = r {
                             self.inconclusive(format!("harness error in case {i}: {msg}"));
                         }
                     }
